@@ -14,7 +14,7 @@ from av import digest, gen, ref
 MANIFEST_ENTRY = {
     "category": "exploration",
     "technique": "client-boundary history checker over sampled runs (pairwise distinctness of the perturbation each returned Result carries) under varied schedules: serial and parallel execution with 1-16 workers, several sample counts, several prior states of the global generator and injected per-process delays; every parallel call runs in its own watchdog-guarded subprocess and reports which process produced which sample; per-quantity perturbation monitor (parameters, transfers, interactions, spending, outcomes); redraw monitor for refused initialisations",
-    "text": "For models with uncertain parameters and program sets (including explicit interaction outcomes) Project.run_sampled_sims and Ensemble.run_sims are called serially and in parallel with num_workers in {1,2,3,4,8,16}, n_samples in 2..32, the numpy global generator left untouched or pre-seeded, and per-process sleeps injected (from the harness) at the start of each sampled run so that the pool hands samples to workers differently. The perturbation fingerprint of every returned sample (sampled parameter values and sampled program set carried by the Result) must be pairwise distinct within a call; the evidence lists the sample-to-process assignments that were actually observed. Sources are snapshotted before and after (unchanged), a sampled run with all uncertainties zero or None must equal the unsampled run, and every generated program book must be sampleable. Every uncertain quantity is also checked on its own: its sampled value must differ between any two samples of a call in which it is visible unclipped (not hidden by a limit, a zero calibration factor or a program overwrite). A third of the cases have uncertain initial sizes, so that some draws are refused and redrawn: a parallel call that gives up redrawing while serial draws of the same model are refused at most 70% of the time is a violation. Series holding a constant next to year values, transfers and interactions are among the uncertain quantities. Unit costs, capacity constraints and saturations carry uncertainties of up to 1.5 x their value, and no sample may carry the entered value of an uncertain programme quantity; a fixed fifth of the cases has all uncertainties zero or absent, with explicit interaction outcomes and non-zero baselines.",
+    "text": "For models with uncertain parameters and program sets (including explicit interaction outcomes) Project.run_sampled_sims and Ensemble.run_sims are called serially and in parallel with num_workers in {1,2,3,4,8,16}, n_samples in 2..32, the numpy global generator left untouched or pre-seeded, and per-process sleeps injected (from the harness) at the start of each sampled run so that the pool hands samples to workers differently. The perturbation fingerprint of every returned sample (sampled parameter values and sampled program set carried by the Result) must be pairwise distinct within a call; the evidence lists the sample-to-process assignments that were actually observed. Sources are snapshotted before and after (unchanged), a sampled run with all uncertainties zero or None must equal the unsampled run, and every generated program book must be sampleable. Every uncertain quantity is also checked on its own: its sampled value must differ between any two samples of a call in which it is visible unclipped (not hidden by a limit, a zero calibration factor or a program overwrite). A third of the cases have uncertain initial sizes, so that some draws are refused and redrawn: a parallel call that gives up redrawing while serial draws of the same model are refused at most 70% of the time is a violation. Series holding a constant next to year values, transfers and interactions are among the uncertain quantities. Unit costs, capacity constraints and saturations carry uncertainties of up to 1.5 x their value, and no sample may carry the entered value of an uncertain programme quantity; a fixed fifth of the cases has all uncertainties zero or absent, with explicit interaction outcomes and non-zero baselines. Three quarters of the zero-uncertainty cases sample a parameter set that carries a saved state.",
     "note": "Pool hangs or child crashes are inconclusive, never violations. 'Any assignment of samples to workers' is sampled, not enumerated: the assignments seen are in the evidence.",
 }
 
